@@ -79,6 +79,11 @@ enum ALog {
 enum ACmd {
     Send { idx: u8, dial: bool, size: usize, try_send: bool },
     Cancel { idx: u8 },
+    /// stop / resume reading the handle's events (a user that is busy elsewhere)
+    Stall(bool),
+    /// `n` requests with `DialOptions::Reject` to a peer nobody is connected to: each fails at once (NotConnected) and
+    /// leaves one event in the handle's channel
+    Flood(usize),
 }
 
 #[derive(Debug, Clone)]
@@ -123,11 +128,20 @@ fn spawn_requester(w: &mut World, node: usize, mut handle: RequestResponseHandle
     let l = log.clone();
     w.spawn_for(node, "rr-user", async move {
         let mut ids: BTreeMap<u8, usize> = BTreeMap::new();
+        let mut stalled = false;
         loop {
             tokio::select! {
                 biased;
                 cmd = rx.recv() => match cmd {
                     None => return,
+                    Some(ACmd::Stall(on)) => stalled = on,
+                    Some(ACmd::Flood(n)) => {
+                        let nobody = crate::util::peer(9_999);
+                        for _ in 0..n {
+                            let r = handle.send_request(nobody, vec![0xf1], DialOptions::Reject).await;
+                            l.lock().push(ALog::Sent { idx: 255, id: r.ok().map(|i| i.verif_raw()) });
+                        }
+                    }
                     Some(ACmd::Send { idx, dial, size, try_send }) => {
                         let opt = if dial { DialOptions::Dial } else { DialOptions::Reject };
                         let r = if try_send {
@@ -145,7 +159,7 @@ fn spawn_requester(w: &mut World, node: usize, mut handle: RequestResponseHandle
                         }
                     }
                 },
-                ev = handle.next() => match ev {
+                ev = handle.next(), if !stalled => match ev {
                     None => return,
                     Some(RequestResponseEvent::ResponseReceived { request_id, response, .. }) =>
                         l.lock().push(ALog::Response { id: request_id.verif_raw(), payload: response }),
@@ -457,6 +471,75 @@ pub fn scenarios(thorough: bool) -> Vec<RrScenario> {
     v
 }
 
+/// One execution: a request to B is in flight (B never answers), the requester's user stops reading events and its
+/// event channel is filled to capacity with failures of other requests, then the connection to B is lost. Once the user
+/// reads again, the request to B must have its one terminal event (the protocol has to wait for room in the channel,
+/// not drop the report), and so must every other request.
+fn connection_lost_while_the_users_event_channel_is_full(ctx: &mut Ctx) {
+    let result = std::thread::spawn(|| -> Result<(usize, usize), Viol> {
+        let rt = crate::env::driver::runtime(9);
+        let _g = rt.enter();
+        let scn = RrScenario { connected: true, program: vec![], responder: Resp::Stall, max_inbound: None, fail_first_dial: false, remote_refuses: false, bystander: false };
+        let mut w = World::new();
+        let st = scn.setup(&mut w);
+        let _ = st.a_cmd.send(ACmd::Send { idx: 0, dial: true, size: 3, try_send: false });
+        w.run_to_quiescence(100_000);
+        let _ = st.a_cmd.send(ACmd::Stall(true));
+        let capacity = litep2p::verif::DEFAULT_CHANNEL_SIZE;
+        let _ = st.a_cmd.send(ACmd::Flood(capacity));
+        w.run_to_quiescence(2_000_000);
+        for k in 0..w.links.len() {
+            w.cut_link(k);
+        }
+        w.run_to_quiescence(2_000_000);
+        let _ = st.a_cmd.send(ACmd::Stall(false));
+        w.run_to_quiescence(2_000_000);
+        let a = st.a_log.lock().clone();
+        let issued: Vec<(u8, usize)> = a.iter().filter_map(|e| if let ALog::Sent { idx, id: Some(id) } = e { Some((*idx, *id)) } else { None }).collect();
+        if issued.len() != capacity + 1 {
+            return Err(Viol::new("machinery/clogged-user-setup", format!("{} of {} requests were accepted", issued.len(), capacity + 1)));
+        }
+        let mut missing = Vec::new();
+        let mut twice = Vec::new();
+        for (idx, id) in &issued {
+            let n = a.iter().filter(|e| matches!(e, ALog::Response { id: i, .. } | ALog::Failed { id: i, .. } if i == id)).count();
+            if n == 0 {
+                missing.push((*idx, *id));
+            } else if n > 1 {
+                twice.push((*idx, *id));
+            }
+        }
+        if !twice.is_empty() {
+            return Err(Viol::new("rr/two-terminal-events/event-channel-full", format!("requests with two terminal events: {:?}", &twice[..twice.len().min(5)])));
+        }
+        if !missing.is_empty() {
+            let on_b = missing.iter().any(|(idx, _)| *idx == 0);
+            return Err(Viol::new(
+                if on_b { "rr/no-terminal-event/connection-lost-while-event-channel-full" } else { "rr/no-terminal-event/immediate-failure-while-event-channel-full" },
+                format!(
+                    "{} request(s) never got a terminal event after the user resumed reading (first: {:?}; idx 0 = the request to B whose connection was lost while the user's event channel held {capacity} unread events)",
+                    missing.len(), &missing[..missing.len().min(5)]
+                ),
+            ));
+        }
+        Ok((issued.len(), w.driver.steps as usize))
+    })
+    .join();
+    match result {
+        Ok(Ok((n, steps))) => {
+            ctx.sub("connection_lost_while_the_users_event_channel_is_full", serde_json::json!({"requests": n, "driver_steps": steps, "held": true}));
+            ctx.cov_add("traces_validated_against_impl", 1);
+        }
+        Ok(Err(v)) if v.signature.starts_with("machinery/") => ctx.machinery_error(format!("{}: {}", v.signature, v.what)),
+        Ok(Err(v)) => ctx.violation(crate::report::Violation {
+            signature: v.signature,
+            what: v.what,
+            replay: serde_json::json!({"engine": "scripted", "scenario": "connection_lost_while_the_users_event_channel_is_full"}),
+        }),
+        Err(_) => ctx.machinery_error("clogged-user scenario panicked"),
+    }
+}
+
 pub fn run(ctx: &mut Ctx) {
     let thorough = ctx.tier == crate::report::Tier::Thorough;
     let e2 = E2 { bound: if thorough { 3 } else { 2 }, max_executions: 3_000_000, demotions: usize::from(thorough), bound_with_demotion: 2, ..Default::default() };
@@ -466,6 +549,7 @@ pub fn run(ctx: &mut Ctx) {
         let out = e2.explore(s);
         e2::absorb(ctx, &s.name(), out);
     }
+    connection_lost_while_the_users_event_channel_is_full(ctx);
     ctx.cov("deviation_bound", e2.bound as u64);
     ctx.cov(
         "rule",
@@ -479,6 +563,9 @@ pub fn run(ctx: &mut Ctx) {
 }
 
 pub fn replay(case: &Value) -> Result<String, String> {
+    if case["engine"] == "scripted" {
+        return Err("re-run `verif check C13`: this scenario is a single deterministic execution inside the check".into());
+    }
     let s: RrScenario = serde_json::from_value(case["config"].clone()).map_err(|e| e.to_string())?;
     e2::replay(&s, case)
 }
